@@ -21,6 +21,11 @@ NA = {
 PENDING_REASON = "claimed in DESIGN.md; its check is still under construction (moves to checks[] when its command exists)"
 
 CHECKS = {
+"C04": dict(
+  text="Seeded exploration (deterministic simulation), scoped to the clauses of C04 that quantify over crash points, histories and configurations: (ii) frame-limit cut-off swept over every depth of depth-parametric templates (value or StackOverflow, monotone, shallow recursion fits the defaults, quiescent interpreter state after every cut-off), (iii) self-dependence reported as infinite recursion, (iv) after any history of failing evaluations the same thread and states evaluate a canary normally, and the process-level half of (i): the jrsonnet executable, supervised as a child across --max-stack/--os-stack settings, never dies by signal, abort or hang on runaway recursion, deep legal recursion or deeply nested source. A clean batch is evidence, not proof.",
+  note="NOT decided: clause (i) over arbitrary source text and arbitrary std arguments (a statement about inputs, outside this technique). Trusted: closed forms of the templates; the dev-profile executable stands for the shipped one (release has panic=abort and smaller frames). Known findings F10 (deeply nested source overflows the native stack) and F12 (recursive Drop of long value chains) are matched by family and depth only.",
+  technique="deterministic simulation: crash-point (frame-limit) sweep, seeded error histories on one thread, supervised child processes across stack configurations",
+  design="§5.2"),
 "C18": dict(
   text="Seeded exploration (deterministic simulation): (a) histories of evaluations (succeeding, failing, cut off by a frame limit; results kept alive across state drops; random drop order) executed twice on one thread, with the collector's tracked-object count and the interner pool size compared between the two teardowns; the C07/C16 fault plans are re-run under the same teardown oracle; (b) interner operation histories (intern, clone, drop, cast both ways, context hand-over between real OS threads released one at a time by the simulator) checked after every step against a multiset model; in the thorough tier the same interpreter runs under Miri (undefined behaviour, leaks, data races). A clean batch is evidence, not proof.",
   note="Trusted: jrsonnet-gcmodule's count_thread_tracked()/collect_thread_cycles() define 'tracked'; thread-local singletons (the empty object) are not garbage, so the oracle is 'no growth between two executions of the same history' plus a small absolute bound; hand-over is exercised in the legal regime only (the reuse regime is the known limitation F8 in DESIGN.md, not claimed).",
